@@ -205,7 +205,17 @@ func specials(d DT) []interface{} {
 
 // decode turns a case-file code into a value: codes >= 1000 pick from the
 // specials pool, everything else is a small integer.
+// extraStrings: more awkward strings for the text formats (codes 3000+i; kept apart from the specials
+// pool so that existing case files keep their meaning).
+var extraStrings = []string{"#x", "#", "a#b", "x\ty", ";", "'", "\\", "a\rb", "0", "-0", "NaN", "1e5", " ", "\u00a0", "é,è"}
+
 func decode(d DT, code int64) interface{} {
+	if code >= 3000 {
+		if d.Name == "string" {
+			return extraStrings[int(code-3000)%len(extraStrings)]
+		}
+		return conv(d, code-3000)
+	}
 	if code >= 2000 {
 		// small complex integers re, im in [-3,3] (for other types: the real part)
 		k := code - 2000
